@@ -79,7 +79,7 @@ class Lib:
             return v
         f = {'nrows': norm(nrows), 'ncols': norm(ncols), 'tc': tc,
              'sym': symval if symval is not None else z3.IntVal(0),
-             'sparse': sparse, 'last_max_step': None}
+             'sparse': sparse, 'last_max_step': None, 'val': None}
         return ex.alloc(st, 'matrix', f, {'owner': owner, 'site': site,
                                           'name': name})
 
@@ -663,6 +663,11 @@ class Lib:
             if o.kind == 'matrix' and o.meta.get('owner', 'FRESH') == 'FRESH':
                 raw = z3.Int(ex.fresh('sym_obj%d' % oid))
                 o.f['sym'] = z3.If(raw >= 0, raw, 0)
+                if ex.cfg.get('algebra'):
+                    # loop-head snapshot: an arbitrary vector
+                    o.f['val'] = {ex.fresh('%s@' % (o.meta.get('name') or
+                                                    'v%d' % oid)): z3.RealVal(
+                        1)}
         return names
 
     def havoc_value(self, ex, st, nm, cur):
@@ -738,6 +743,9 @@ class Lib:
             else:
                 ex.assign(body_st, fid, s.target, Unknown('loop element'), s)
         body_st.ghost[('loopidx', s.lineno)] = k
+        ha = self.hooks.get('loop_assume')
+        if ha and feasible:
+            ha(ex, body_st, fid, s)
         if not feasible:
             outs = []                 # the loop body is unreachable
         elif cond is not None:
